@@ -99,6 +99,9 @@ class MATCHConv2d(nn.Conv2d, MATCHModule):
                 self.b_quantizer.dequantize = False
                 int_bias = self.b_quantizer(conv.bias, self.s_x, self.s_w)
                 int_bias = cast(torch.Tensor, int_bias)
+            else:
+                # bias-free layer: behaves as a layer with an all-zero integer bias
+                int_bias = torch.zeros(self.out_channels, device=self.device)
 
         self.scale, self.shift = self._integer_approximation(self.s_w, self.s_x, self.s_y,
                                                              int_bias)
@@ -111,7 +114,7 @@ class MATCHConv2d(nn.Conv2d, MATCHModule):
                     self.bias = cast(torch.Tensor, self.bias)
                     self.bias.copy_(int_bias)
             else:
-                self.add_bias = None
+                self.add_bias = torch.zeros(1, self.out_channels, 1, 1, device=self.device)
 
         # Done here to avoid the reshape op in fwd
         self.scale = self.scale.view(1, self.out_channels, 1, 1)
